@@ -12,6 +12,7 @@ from . import spec  # noqa: E402,F401
 from . import c_gkdi  # noqa: E402,F401
 from . import c_client  # noqa: E402,F401
 from . import c_dns  # noqa: E402,F401
+from . import c_asn1  # noqa: E402,F401
 from . import c_codecs  # noqa: E402,F401
 from . import c_rpc  # noqa: E402,F401
 from . import c_epm  # noqa: E402,F401
